@@ -3,7 +3,7 @@
    the c10_prim_refuted_* theorems are the witnesses against the getters of the pinned tree (Wire/PrimOld.v). *)
 From Coq Require Import List ZArith.
 From SV Require Import Wire.Bytes Wire.Varint Wire.Crc Wire.Prim Wire.PushPop Wire.CorrPrim Wire.PrimOld
-  Wire.SafetyProofs Wire.OldProofs.
+  Wire.SafetyProofs Wire.OldProofs Wire.Records Wire.RecordsSafety Wire.RecordsDetect Wire.RecordsTerm.
 Import ListNotations.
 Open Scope Z_scope.
 
@@ -45,3 +45,77 @@ Theorem c10_prim_refuted_compact_int32_array :
   get_compact_int32_array_old (mkDec [3; 0; 0; 0; 1] 0 0 []) = Panic P_INDEX.
 Proof. exact (conj old_compact_int32_array_alloc old_compact_int32_array_short). Qed.
 Print Assumptions c10_prim_refuted_compact_int32_array.
+
+(* ============================ records layer ============================ *)
+(* Record / recordsArray: for every buffer and offset: a value or an error; on success the stack is restored and the
+   allocation is paid for by consumed bytes (the header count is checked before make). *)
+Theorem c10_records_safe_record : forall d, inb d -> rsafe d (record_decode d).
+Proof. exact record_decode_safe. Qed.
+Print Assumptions c10_records_safe_record.
+Theorem c10_records_safe_array : forall n d, inb d -> rsafe d (records_decode n d).
+Proof. exact records_decode_safe. Qed.
+
+(* RecordBatch, whatever the codec library returns (outputs of at most L bytes): never a panic, never an allocation
+   from an unchecked count; offsets inside the buffer; allocation <= 16 x remaining + 32 x max(L, remaining). *)
+Theorem c10_records_safe : forall (decompress : Z -> list Z -> option (list Z)) L,
+  (forall c x y, decompress c x = Some y -> len y <= L) -> 0 <= L < two63 ->
+  forall d, inb d -> bsafe L d (batch_decode decompress d).
+Proof. exact batch_decode_safe. Qed.
+Print Assumptions c10_records_safe.
+
+(* Legacy message sets (with nested compressed wrapper messages, any nesting depth given to the model): never a
+   panic; the decoders allocate nothing by make (mem unchanged). *)
+Theorem c10_records_safe_mset : forall (decompress : Z -> list Z -> option (list Z)),
+  (forall c x y, decompress c x = Some y -> len y < two63) ->
+  forall depth d, inb d -> lsafe d (mset_decode decompress depth d).
+Proof. exact mset_decode_safe. Qed.
+Print Assumptions c10_records_safe_mset.
+
+(* Records (magic-byte peek choosing legacy vs default), response header, request header, control record. *)
+Theorem c10_records_safe_top : forall (decompress : Z -> list Z -> option (list Z)) L,
+  (forall c x y, decompress c x = Some y -> len y <= L) -> 0 <= L < two63 ->
+  forall depth d, inb d -> bsafe L d (records_decode_top decompress depth d).
+Proof. exact records_top_safe. Qed.
+Theorem c10_response_header_safe : forall version d, inb d -> safe d (response_header_decode version d).
+Proof. exact response_header_safe. Qed.
+Theorem c10_request_header_safe : forall hv_of d, inb d -> safe d (request_header_decode hv_of d).
+Proof. exact request_header_safe. Qed.
+Theorem c10_control_record_safe : forall key value, inb key -> inb value -> no_crash (fst (control_decode key value)).
+Proof. exact control_decode_safe. Qed.
+Print Assumptions c10_control_record_safe.
+
+(* A record batch that decodes (not as a partial trailing batch) has been verified: its CRC field is the CRC-32C of
+   exactly the bytes after it up to the end of the batch as the length field states, and exactly 12 + length bytes
+   were consumed.  Otherwise the result is an error or the tolerated partial batch with no records. *)
+Theorem c10_crc_detects : forall (decompress : Z -> list Z -> option (list Z)) d b d',
+  batch_decode decompress d = Ok b d' -> b_partial b = false ->
+  exists bl blb stored cov,
+    slice (raw d) (off d + 8) (off d + 12) = Some blb /\ bl = i32 (ube blb) /\
+    slice (raw d) (off d + 17) (off d + 21) = Some stored /\
+    slice (raw d) (off d + 21) (off d + 12 + bl) = Some cov /\
+    crc32 Castagnoli cov = ube stored /\
+    off d' = off d + 12 + bl /\ raw d' = raw d.
+Proof. exact batch_detects. Qed.
+Print Assumptions c10_crc_detects.
+
+(* A legacy message block that decodes: CRC-32 of exactly the bytes from the magic byte to the end of the value;
+   the length field equals the number of bytes of the message. *)
+Theorem c10_length_detects : forall (decompress : Z -> list Z -> option (list Z)) nested d o m d',
+  fst (block_decode_with (message_decode_with decompress nested) d) = Ok (o, m) d' ->
+  (forall buf d0, match nested buf d0 with Ok _ dz | Err _ dz => raw dz = raw d0 /\ off dz = off d0 /\ stack dz = stack d0 | _ => True end) ->
+  exists ml mlb stored cov,
+    slice (raw d) (off d + 8) (off d + 12) = Some mlb /\ ml = i32 (ube mlb) /\
+    slice (raw d) (off d + 12) (off d + 16) = Some stored /\
+    slice (raw d) (off d + 16) (off d') = Some cov /\
+    crc32 IEEE cov = ube stored /\
+    ml = i32 (off d' - (off d + 12)) /\ raw d' = raw d.
+Proof. exact block_detects. Qed.
+Print Assumptions c10_length_detects.
+
+(* Termination: the only loop of the layer that is not a counted loop (MessageSet.decode) is modelled with fuel;
+   any fuel above the number of remaining bytes gives the same result: the fuel is never what stops the loop. *)
+Theorem c10_terminates : forall msgdec, (forall d1, inb d1 -> msafe d1 (msgdec d1)) ->
+  forall fuel1 fuel2 d acc, inb d -> remaining d < Z.of_nat fuel1 -> remaining d < Z.of_nat fuel2 ->
+  mset_loop msgdec fuel1 d acc = mset_loop msgdec fuel2 d acc.
+Proof. exact mset_loop_fuel. Qed.
+Print Assumptions c10_terminates.
